@@ -146,6 +146,12 @@ func (f *Frame) instr(in ssa.Instruction) {
 		}
 		f.zeroInit(obj, tb.BV(64, L.Size(et)), L.ElemSorts(et))
 		f.set(x, []*Term{obj, tb.BV(64, 0)})
+		switch et.Underlying().(type) {
+		case *types.Struct, *types.Array:
+			// a variable of type et: a typed pointer materialised later can only point into it
+			// when its target type occurs in et (type safety, see typesafety.go)
+			f.u.allocs = append(f.u.allocs, typedPtr{et, obj, tb.BV(64, 0)})
+		}
 	case *ssa.UnOp:
 		f.unop(x)
 	case *ssa.BinOp:
@@ -273,9 +279,15 @@ func (f *Frame) instr(in ssa.Instruction) {
 		f.cur.mem = f.cur.mem.clone()
 		f.cur.mem.m[mapLenKey] = f.u.mc.Store(f.cur.mem.m[mapLenKey], ch, tb.BV(64, 0), tb.Add(ln, tb.BV(64, 1)))
 	case *ssa.Select:
-		f.u.note("select not modelled in " + f.fn.String())
 		f.set(x, f.u.freshValue("select", x.Type()))
-		f.havocAll("select")
+		if recvOnlySelect(x) {
+			// like a plain receive: which case fires and what is received is arbitrary; the
+			// goroutine's own memory is not touched
+			f.u.note("select over receive cases: outcome arbitrary, in " + f.fn.String())
+		} else {
+			f.u.note("select not modelled in " + f.fn.String())
+			f.havocAll("select")
+		}
 	default:
 		panic(unsupported(fmt.Sprintf("instruction %T in %s", in, f.fn.String())))
 	}
@@ -1175,4 +1187,14 @@ func (f *Frame) implementsTerm(tag *Term, iface types.Type) *Term {
 	r := tb.UF("implements!"+types.TypeString(iface, nil), BoolSort, tag)
 	f.u.addFact(tb.Not(tb.UF("implements!"+types.TypeString(iface, nil), BoolSort, tb.BV(32, 0))))
 	return r
+}
+
+// recvOnlySelect: every case of the select is a receive (a default case has no state entry).
+func recvOnlySelect(x *ssa.Select) bool {
+	for _, st := range x.States {
+		if st.Dir != types.RecvOnly {
+			return false
+		}
+	}
+	return true
 }
